@@ -21,7 +21,9 @@ VALUES = {
                          b'gzip;q=', b'identity;q=', b'*;q=', b'identity;q=0.0', b'*;q=0.0', b'gzip;q=0', b'identity;q=00', b'identity;q',
                          b';q=0', b';q=', b'q=0', b'gzip;q=;q=0', b'identity;q=0;q=1', b'deflate;q=0.5, gzip;q='],
 }
-OTHER_NAMES = [b'X-Custom', b'x-custom', b'Host', b'', b'Content-Lengthy', b'Content Length', b'Accept-', b'\xc3\xa9t\xc3\xa9', b'X:Y']
+OTHER_NAMES = [b'X-Custom', b'x-custom', b'Host', b'', b'Content-Lengthy', b'Content Length', b'Accept-', b'\xc3\xa9t\xc3\xa9', b'X:Y',
+               # the characters next to A..Z and a..z (lower-casing touches only letters)
+               b'X@Y[Z', b'x`y{z', b'@A[Z`a{z', b'CONTENT@LENGTH', b'Accept[']
 
 
 def flip(rng, b):
